@@ -10,8 +10,8 @@ package main
 //
 // Domain restrictions of the generator (each is a stated scope limit of the model, design.d/PIPE.md):
 //   no patches / images / replicas / replacements / vars / components / configurations / helm / plugins,
-//   generators with literal sources only (all behaviours), no generatorOptions, no immutable;
-//   no `kind: List`, no empty documents, no anchors, no comments, no local-config annotation,
+//   generators with literal sources only (all behaviours, generatorOptions), no immutable;
+//   no `kind: List`, no empty documents, no anchors, no comments,
 //   no internal.config.kubernetes.io annotations in inputs, no ',' in names (PrevIds panic, C12 finding).
 //
 // Law oracles evaluated on the implementation (the implementation-side counterparts of the PIPE theorems):
@@ -56,6 +56,26 @@ type pipeLabel struct {
 	Pairs            map[string]string `json:"pairs"`
 	IncludeSelectors bool              `json:"includeSelectors"`
 	IncludeTemplates bool              `json:"includeTemplates"`
+	Fields           []pipeFS          `json:"fields,omitempty"`
+}
+
+// one custom field spec of a labels entry (labels[].fields)
+type pipeFS struct {
+	Group   string `json:"group,omitempty"`
+	Version string `json:"version,omitempty"`
+	Kind    string `json:"kind,omitempty"`
+	Path    string `json:"path"`
+	Create  bool   `json:"create,omitempty"`
+}
+
+var pipeFieldPool = []pipeFS{
+	{Path: "spec/extra/lbl", Create: true},
+	{Kind: "Widget", Path: "spec/selector/matchLabels"},
+	{Kind: "Deployment", Path: "spec/template/metadata/labels"}, // create=false: conflicts with the default row
+	{Group: "example.com", Kind: "Widget", Path: "spec/podLabels", Create: true},
+	{Path: "metadata/labels", Create: true},
+	{Kind: "Service", Version: "v1", Path: "spec/selector", Create: true},
+	{Kind: "Gadget", Path: "spec/extra"},
 }
 
 type pipeGenSpec struct {
@@ -65,6 +85,13 @@ type pipeGenSpec struct {
 	Literals    []string          `json:"literals"`
 	Type        string            `json:"type"`
 	HasOpts     bool              `json:"hasOpts"`
+	Labels      map[string]string `json:"labels"`
+	Annos       map[string]string `json:"annotations"`
+	DisableHash bool              `json:"disableHash"`
+}
+
+// generatorOptions: of one kustomization
+type pipeGenOpts struct {
 	Labels      map[string]string `json:"labels"`
 	Annos       map[string]string `json:"annotations"`
 	DisableHash bool              `json:"disableHash"`
@@ -90,6 +117,7 @@ type pipeDir struct {
 	CommonAnnos  map[string]string `json:"commonAnnotations"`
 	CmGens       []pipeGenSpec     `json:"cmGens"`
 	SecGens      []pipeGenSpec     `json:"secGens"`
+	GenOpts      *pipeGenOpts      `json:"genOpts,omitempty"`
 	Ents         []*pipeEnt        `json:"ents"`
 	parent       *pipeDir
 	depth        int
@@ -106,6 +134,7 @@ type pipeCase struct {
 	Refs  int               `json:"refs"`
 	Twins bool              `json:"twins"`
 	Merges int              `json:"merges"`
+	Locals int              `json:"locals"`
 }
 
 // ---------------------------------------------------------------- catalogue
@@ -167,6 +196,7 @@ type pipeGen struct {
 	useNs  bool
 	nextID int
 	refs   int
+	locals int
 }
 
 func pipePodSpec(rng *Rng) map[string]interface{} {
@@ -206,6 +236,11 @@ func (g *pipeGen) newObj(kind, av, name, ns string, layer *pipeDir) *pipeObj {
 	}
 	if rng.Chance(15) {
 		md["annotations"].(map[string]interface{})["note"] = rng.Pick(pipeAdvValues)
+	}
+	if rng.Chance(7) {
+		// IgnoreLocal: dropped at the end of the build unless the value is "false"
+		md["annotations"].(map[string]interface{})["config.kubernetes.io/local-config"] = rng.Pick([]string{"true", "true", "false", "yes"})
+		g.locals++
 	}
 	doc := map[string]interface{}{"apiVersion": av, "kind": kind, "metadata": md}
 	app := rng.Pick(pipeNames)
@@ -593,6 +628,19 @@ func pipeGenCase(rng *Rng, rules []krusty.VerifC03Rule) *pipeCase {
 			g.objs = append(g.objs, &pipeObj{ID: "g", Kind: "Secret", AV: "v1", Name: sp.Name, Ns: sp.Namespace, Layer: d, Gen: true})
 		}
 	}
+	// generatorOptions (also without any generator: the field alone makes the kustomization non-empty)
+	for _, d := range g.dirs {
+		if (len(d.CmGens)+len(d.SecGens) > 0 && rng.Chance(30)) || rng.Chance(3) {
+			o := &pipeGenOpts{DisableHash: rng.Chance(30)}
+			if rng.Chance(60) {
+				o.Labels = pipeRandPairs(rng, 2)
+			}
+			if rng.Chance(40) {
+				o.Annos = pipeRandPairs(rng, 2)
+			}
+			d.GenOpts = o
+		}
+	}
 	// resources
 	nres := 1 + rng.Intn(6)
 	for i := 0; i < nres; i++ {
@@ -701,8 +749,15 @@ func pipeGenCase(rng *Rng, rules []krusty.VerifC03Rule) *pipeCase {
 		if rng.Chance(30) {
 			n := 1 + rng.Intn(2)
 			for i := 0; i < n; i++ {
-				d.Labels = append(d.Labels, pipeLabel{Pairs: pipeRandPairs(rng, 2),
-					IncludeSelectors: rng.Chance(35), IncludeTemplates: rng.Chance(40)})
+				e := pipeLabel{Pairs: pipeRandPairs(rng, 2),
+					IncludeSelectors: rng.Chance(35), IncludeTemplates: rng.Chance(40)}
+				if rng.Chance(25) {
+					nf := 1 + rng.Intn(2)
+					for j := 0; j < nf; j++ {
+						e.Fields = append(e.Fields, pipeFieldPool[rng.Intn(len(pipeFieldPool))])
+					}
+				}
+				d.Labels = append(d.Labels, e)
 			}
 		}
 	}
@@ -761,6 +816,7 @@ func pipeGenCase(rng *Rng, rules []krusty.VerifC03Rule) *pipeCase {
 			pc.Last = nil
 		}
 	}
+	pc.Locals = g.locals
 	pc.Root = "/w/" + top.Name
 	pipeRender(pc)
 	return pc
@@ -847,6 +903,26 @@ func pipeRenderDir(pc *pipeCase, d *pipeDir, path string, top bool) {
 			if e.IncludeTemplates {
 				m["includeTemplates"] = true
 			}
+			if len(e.Fields) > 0 {
+				var fl []interface{}
+				for _, f := range e.Fields {
+					fm := map[string]interface{}{"path": f.Path}
+					if f.Group != "" {
+						fm["group"] = f.Group
+					}
+					if f.Version != "" {
+						fm["version"] = f.Version
+					}
+					if f.Kind != "" {
+						fm["kind"] = f.Kind
+					}
+					if f.Create {
+						fm["create"] = true
+					}
+					fl = append(fl, fm)
+				}
+				m["fields"] = fl
+			}
 			l = append(l, m)
 		}
 		k["labels"] = l
@@ -864,6 +940,19 @@ func pipeRenderDir(pc *pipeCase, d *pipeDir, path string, top bool) {
 			l = append(l, pipeGenYaml(s, true))
 		}
 		k["secretGenerator"] = l
+	}
+	if d.GenOpts != nil {
+		o := map[string]interface{}{}
+		if d.GenOpts.DisableHash {
+			o["disableNameSuffixHash"] = true
+		}
+		if len(d.GenOpts.Labels) > 0 {
+			o["labels"] = pipeStrMap(d.GenOpts.Labels)
+		}
+		if len(d.GenOpts.Annos) > 0 {
+			o["annotations"] = pipeStrMap(d.GenOpts.Annos)
+		}
+		k["generatorOptions"] = o
 	}
 	if top {
 		switch pc.Sort {
@@ -958,6 +1047,8 @@ func pipeCoqGen(s pipeGenSpec) string {
 		coqStr(s.Type), coqBool(s.HasOpts), pipeCoqPairs(s.Labels), pipeCoqPairs(s.Annos), coqBool(s.DisableHash))
 }
 
+var customFields bool // set by pipeCoqDir when a labels entry carries custom fields (distribution only)
+
 func pipeCoqDir(d *pipeDir, vals map[string]bool) (string, bool) {
 	var labels, cm, sec, ents []string
 	note := func(m map[string]string) {
@@ -968,7 +1059,14 @@ func pipeCoqDir(d *pipeDir, vals map[string]bool) (string, bool) {
 	}
 	for _, e := range d.Labels {
 		note(e.Pairs)
-		labels = append(labels, fmt.Sprintf("(Labels.mkLD %s %s %s [])", pipeCoqPairs(e.Pairs), coqBool(e.IncludeSelectors), coqBool(e.IncludeTemplates)))
+		var fl []string
+		for _, f := range e.Fields {
+			fl = append(fl, fmt.Sprintf("(mkFs %s %s %s %s %s)", coqStr(f.Group), coqStr(f.Version), coqStr(f.Kind), coqStr(f.Path), coqBool(f.Create)))
+		}
+		if len(e.Fields) > 0 {
+			customFields = true
+		}
+		labels = append(labels, fmt.Sprintf("(Labels.mkLD %s %s %s [%s])", pipeCoqPairs(e.Pairs), coqBool(e.IncludeSelectors), coqBool(e.IncludeTemplates), strings.Join(fl, "; ")))
 	}
 	note(d.CommonLabels)
 	note(d.CommonAnnos)
@@ -1006,9 +1104,15 @@ func pipeCoqDir(d *pipeDir, vals map[string]bool) (string, bool) {
 			ents = append(ents, t)
 		}
 	}
-	dirs := fmt.Sprintf("(mkPDirs %s %s %s [%s] %s %s [%s] [%s])", coqStr(d.Ns), coqStr(d.Prefix), coqStr(d.Suffix),
+	gopts := "None"
+	if d.GenOpts != nil {
+		note(d.GenOpts.Labels)
+		note(d.GenOpts.Annos)
+		gopts = fmt.Sprintf("(Some (mkPGopts %s %s %s))", pipeCoqPairs(d.GenOpts.Labels), pipeCoqPairs(d.GenOpts.Annos), coqBool(d.GenOpts.DisableHash))
+	}
+	dirs := fmt.Sprintf("(mkPDirsG %s %s %s [%s] %s %s [%s] [%s] %s)", coqStr(d.Ns), coqStr(d.Prefix), coqStr(d.Suffix),
 		strings.Join(labels, "; "), pipeCoqPairs(d.CommonLabels), pipeCoqPairs(d.CommonAnnos),
-		strings.Join(cm, "; "), strings.Join(sec, "; "))
+		strings.Join(cm, "; "), strings.Join(sec, "; "), gopts)
 	return fmt.Sprintf("(PDir %s %s [%s])", coqStr(d.Name), dirs, strings.Join(ents, "; ")), true
 }
 
@@ -1089,6 +1193,11 @@ func pipeTracersIn(d *pipeDir, acc map[string]int) {
 func pipeOracles(pc *pipeCase, o pipeOutcome) [][3]string {
 	var out [][3]string
 	if o.Cls == ClsPanic {
+		// known C12 finding (class panic:api/resmap.(*Factory).FromResourceSlice:explicit-may-not-add): an id collision
+		// among the resources IgnoreLocal keeps panics; the model reproduces it (corpus/PIPE/case_hashclash.json)
+		if strings.Contains(o.Msg, "may not add resource with an already registered id") {
+			return nil
+		}
 		return append(out, [3]string{"no_panic", "PIPE/panic", o.Msg})
 	}
 	if o.Cls != ClsOk {
@@ -1113,7 +1222,8 @@ func pipeOracles(pc *pipeCase, o pipeOutcome) [][3]string {
 		}
 	}
 	for id, n := range want {
-		if got[id] != n {
+		// documents marked local-config may be dropped (IgnoreLocal): at most once then, exactly once otherwise
+		if (pc.Locals == 0 && got[id] != n) || got[id] > n {
 			out = append(out, [3]string{"identity_multiset", "PIPE/identity-multiset", fmt.Sprintf("tracer %s: %d inputs, %d outputs", id, n, got[id])})
 			break
 		}
@@ -1186,6 +1296,7 @@ func pipeCountKinds(r *Run, d *pipeDir, depth int, maxDepth *int, ndirs *int) {
 	used("labels", len(d.Labels) > 0)
 	used("configMapGenerator", len(d.CmGens) > 0)
 	used("secretGenerator", len(d.SecGens) > 0)
+	used("generatorOptions", d.GenOpts != nil)
 	for _, e := range d.Ents {
 		if e.File != nil {
 			for _, y := range e.File.Docs {
@@ -1210,6 +1321,7 @@ func pipeOne(r *Run, pc *pipeCase, debug bool, corpus bool) {
 	r.Count("outcome", o.Cls)
 	r.Count("refs", fmt.Sprint(pc.Refs))
 	r.Count("twins", fmt.Sprint(pc.Twins))
+	r.Count("local_config_docs", fmt.Sprint(pc.Locals))
 	r.Count("merge_replace_targets", fmt.Sprint(pc.Merges))
 	if pc.Merges > 0 {
 		r.Count("merge_replace_outcome", o.Cls)
@@ -1223,7 +1335,9 @@ func pipeOne(r *Run, pc *pipeCase, debug bool, corpus bool) {
 	for _, v := range pipeOracles(pc, o) {
 		r.Violation(OracleViolation{Law: v[0], Class: v[1], Detail: v[2], Replay: pc})
 	}
+	customFields = false
 	term, ok := pipeCaseTerm(pc, o)
+	r.Count("labels_custom_fields", fmt.Sprint(customFields))
 	if !ok {
 		r.Meta.Skipped++
 		return
@@ -1244,7 +1358,7 @@ func pipeErrKind(msg string) string {
 		return "ambiguous-referral"
 	case strings.Contains(msg, "illegally repeats the key"):
 		return "generator-repeated-key"
-	case strings.Contains(msg, "conflicting fieldspecs"):
+	case strings.Contains(msg, "conflicting fieldspecs") || strings.Contains(msg, "failed to merge"):
 		return "label-fieldspec-conflict"
 	case strings.Contains(msg, "cannot merge or replace"):
 		return "merge-target-missing"
